@@ -57,6 +57,9 @@ TYPES = {
 }
 
 
+TYPES['vcf_entry'] = dict(TYPES['vcf'], cls='VCFEntry')      # a VCFEntry built by hand (info column holds text)
+
+
 def fasta_rows(width):
     w = width
     lens = [1, w - 1, w, w + 1, 2 * w, 2 * w + 1]
